@@ -8,7 +8,7 @@
 (*       keyword-only reordering, generic substitution, option inheritance  *)
 (* Class descriptors are those of PaneSem ([k |-> "cls", ...]).             *)
 (***************************************************************************)
-EXTENDS PaneErrors
+EXTENDS PaneDispatch
 
 -----------------------------------------------------------------------------
 (* C14.  A construction is described by the class, the path and the supplied arguments       *)
